@@ -44,6 +44,64 @@ Theorem decompress1_total : forall m, m <> [] ->
 Proof. exact Proofs.C04.decompress1_total. Qed.
 Print Assumptions decompress1_total.
 
+(* ---------------- G2 ---------------- *)
+(* sqrtGfP2 as repaired (hexRoot loop bounded by hexRootOrder): whatever it returns is a
+   square root with reduced coordinates ... *)
+Theorem sqrt_gfp2_sound : forall p X r, 1 < p ->
+  sqrt_gfp2 p X = Some r -> ok2 p r /\ mul2 p r r = X.
+Proof. exact Proofs.C04.sqrt_gfp2_sound. Qed.
+Print Assumptions sqrt_gfp2_sound.
+
+(* ... and the loop bound loses nothing: EVERY square of F_p[i] (zero included) has a root
+   found within the bound, so nil / Err means "not a square".  (The proof needs at least 8
+   iterations; it is re-checked against the generated constant hexRootOrder on every run.) *)
+Theorem sqrt_gfp2_finds_roots : prime P -> forall y, ok2 P y ->
+  exists r, sqrt_gfp2 P (mul2 P y y) = Some r /\ ok2 P r /\ (r = y \/ r = neg2 P y).
+Proof. exact Proofs.C04.sqrt_gfp2_finds_roots. Qed.
+Print Assumptions sqrt_gfp2_finds_roots.
+
+(* every affine point of the twist y^2 = x^3 + twistB with reduced coordinates whose y has a
+   non-zero imaginary part, and which bn256's subgroup test accepts (in_subgroup is the oracle
+   for that library call), survives Compress followed by DecompressToG2 *)
+Theorem g2_roundtrip : prime P -> forall in_subgroup x y,
+  valid2 P (Aff2 x y) = true -> snd y <> 0 -> in_subgroup x y = true ->
+  decompress2 P (sqrt_gfp2 P) in_subgroup (compress2 (Aff2 x y)) = R2 (Aff2 x y).
+Proof. exact Proofs.C04.g2_roundtrip. Qed.
+Print Assumptions g2_roundtrip.
+
+(* FULL STATEMENT (not provable, refuted below on the twist): the same without the guard
+   [snd y <> 0].  The flag bit is the parity of Im y only; for a real y the points (x, y) and
+   (x, -y) have the same encoding.  Witness: a point of the twist curve with y = (P - 4, 0).
+   (Whether the order-r subgroup G2 itself contains a point with real y is not decided here:
+   the witness is on the twist, the subgroup test is an oracle.) *)
+Theorem g2_roundtrip_real_y_refuted : exists x y,
+  valid2 P (Aff2 x y) = true /\ snd y = 0 /\ y <> (0, 0) /\
+  forall in_subgroup,
+    decompress2 P (sqrt_gfp2 P) in_subgroup (compress2 (Aff2 x y)) <> R2 (Aff2 x y).
+Proof. exact Proofs.C04.g2_roundtrip_real_y_refuted. Qed.
+Print Assumptions g2_roundtrip_real_y_refuted.
+
+(* the identity of G2 does not round-trip either (known finding C04-identity-encoding) *)
+Theorem g2_identity_roundtrip_refuted : forall in_subgroup,
+  decompress2 P (sqrt_gfp2 P) in_subgroup (compress2 Inf2) = Err2.
+Proof. exact Proofs.C04.g2_identity_roundtrip_refuted. Qed.
+Print Assumptions g2_identity_roundtrip_refuted.
+
+(* DecompressToG2 on any non-empty byte string (the model is faithful for 64 bytes, the
+   well-sized inputs of the property) returns a point of the twist with reduced coordinates or
+   an error, for every answer of the subgroup oracle: never a panic, never a hang; the
+   square-root search is a structural recursion on hexRootOrder.  Needs no primality. *)
+Theorem decompress2_total : forall in_subgroup m, m <> [] ->
+  match decompress2 P (sqrt_gfp2 P) in_subgroup m with
+  | R2 Inf2 => True
+  | R2 (Aff2 x y) => ok2 P x /\ ok2 P y /\
+      mul2 P y y = add2 P (mul2 P (mul2 P x x) x) twistB
+  | Err2 => True
+  | Panic2 | Hang2 => False
+  end.
+Proof. exact Proofs.C04.decompress2_total. Qed.
+Print Assumptions decompress2_total.
+
 (* ---------------- G1HashToPoint ---------------- *)
 (* whenever the try-and-increment search returns, the result is an affine point on the curve *)
 Theorem hash_to_point_on_curve : forall fuel h r,
@@ -72,3 +130,51 @@ Theorem valid1_iff : forall p x y, valid1 p (Aff1 x y) = true <->
   (0 <= x < p /\ 0 <= y < p /\ (y * y) mod p = (x * x * x + 3) mod p).
 Proof. exact Proofs.C04.valid1_iff. Qed.
 Print Assumptions valid1_iff.
+
+Theorem valid2_iff : forall p x y, valid2 p (Aff2 x y) = true <->
+  (ok2 p x /\ ok2 p y /\ mul2 p y y = add2 p (mul2 p (mul2 p x x) x) twistB).
+Proof. exact Proofs.C04.valid2_iff. Qed.
+Print Assumptions valid2_iff.
+
+(* the executable property [spec] (evaluated by the judge on the implementation's outputs)
+   implies the Prop-level statement *)
+Theorem spec_sound : forall c, spec P c = true ->
+  match c with
+  | CRound1 pt _ d => d = R1 pt
+  | CRound2 pt _ d => d = R2 pt
+  | CDec1 _ d =>
+      match d with
+      | R1 Inf1 | Err1 => True
+      | R1 (Aff1 x y) => 0 <= x < P /\ 0 <= y < P /\ (y * y) mod P = (x * x * x + 3) mod P
+      | _ => False
+      end
+  | CDec2 _ d =>
+      match d with
+      | R2 Inf2 | Err2 => True
+      | R2 (Aff2 x y) => ok2 P x /\ ok2 P y /\ mul2 P y y = add2 P (mul2 P (mul2 P x x) x) twistB
+      | _ => False
+      end
+  | CHash _ pt rep =>
+      exists x y, pt = R1 (Aff1 x y) /\ rep = pt /\
+        0 <= x < P /\ 0 <= y < P /\ (y * y) mod P = (x * x * x + 3) mod P
+  end.
+Proof. exact Proofs.C04.spec_sound. Qed.
+Print Assumptions spec_sound.
+
+(* ... and it holds of every output of the model (under the guards of the round-trip theorems) *)
+Theorem spec_holds_of_model :
+  (prime P -> forall x y c, valid1 P (Aff1 x y) = true ->
+     spec P (CRound1 (Aff1 x y) c (decompress1 P (mod_sqrt P) (compress1 (Aff1 x y)))) = true) /\
+  (prime P -> forall x y c, valid2 P (Aff2 x y) = true -> snd y <> 0 ->
+     spec P (CRound2 (Aff2 x y) c (dec2 P (sqrt_gfp2 P) (compress2 (Aff2 x y)) true)) = true) /\
+  (forall m, m <> [] -> spec P (CDec1 m (decompress1 P (mod_sqrt P) m)) = true) /\
+  (forall m o, m <> [] -> spec P (CDec2 m (dec2 P (sqrt_gfp2 P) m o)) = true) /\
+  (forall fuel h r, hash_to_point P (mod_sqrt P) fuel h = Some r -> spec P (CHash h r r) = true).
+Proof. exact Proofs.C04.spec_holds_of_model. Qed.
+Print Assumptions spec_holds_of_model.
+
+(* the judge run on every case evaluates the two square-root kernels on Bignums' BigZ; it is
+   the same function as the judge over plain Z that the theorems above speak about *)
+Theorem judge_big_eq : forall c, Concrete.judge c = Concrete.judge_Z c.
+Proof. exact Proofs.C04.judge_big_eq. Qed.
+Print Assumptions judge_big_eq.
